@@ -150,11 +150,15 @@ CHECK_DEADLOCK FALSE
 // runDenseImplMC model-checks the array-level model DenseImpl.tla (refinement of the abstract stores,
 // structural invariants, no out-of-bounds access) for one pair of store kinds with scaled-down constants.
 func (c *Ctx) runDenseImplMC(kinds string, overhead int, purpose string) {
+	c.runDenseImplMCSized(kinds, overhead, purpose, !c.quick())
+}
+
+func (c *Ctx) runDenseImplMCSized(kinds string, overhead int, purpose string, large bool) {
 	if !c.phase("MC DenseImpl " + purpose) {
 		return
 	}
 	keys, maxTotal := "DKeysSmall", 3
-	if !c.quick() {
+	if large {
 		keys, maxTotal = "DKeys", 4
 	}
 	cfg := fmt.Sprintf(`SPECIFICATION Spec
